@@ -69,7 +69,8 @@ def acceptedRaise (j : Journal) : Bool :=
    !j.any (fun e => match e.call with | .terminateInstances _ => true | _ => false) &&
    ((j.filter Spec.isAttachEntry).getLast?.map (·.ok)) == some true)
 
-def monitorsWant (c : Spec.Ctx) (obsDelta : Int) (j : Journal) (fatalHere : Bool) (stillTainted : List String := []) (dupTainted : List String := []) : List String :=
+def monitorsWant (c : Spec.Ctx) (obsDelta : Int) (j : Journal) (fatalHere : Bool) (stillTainted : List String := []) (dupTainted : List String := [])
+    (deltaUnknown : Bool := false) : List String :=
   let unt : Int := Spec.untaintedCount c
   let want : Int := if unt < c.st.minEff then c.st.minEff - unt else obsDelta
   (if fatalHere then [] else (Spec.decisionBad c obsDelta).flatMap (fun t => ["C06|" ++ t, "C13|" ++ t] ++
@@ -84,7 +85,9 @@ def monitorsWant (c : Spec.Ctx) (obsDelta : Int) (j : Journal) (fatalHere : Bool
   ((Spec.C10.untaintBad c j).map (fun t => "C10|" ++ t)) ++
   ((Spec.C10.taintBad c j).map (fun t => "C10|" ++ t)) ++
   (if fatalHere then [] else (Spec.C10.holdbackBad c obsDelta j).map (fun t => "C10|" ++ t)) ++
-  (if Spec.C07.amountHolds c want j then [] else ["C07|amount", "C05|compose"]) ++
+  -- a scan that ended in log.Fatalf (third failed fleet provisioning in a row) never reported its decision: the amounts
+  -- cannot be judged against it
+  (if deltaUnknown || Spec.C07.amountHolds c want j then [] else ["C07|amount", "C05|compose"]) ++
   (if Spec.C07.amountHolds c (want + 1000000000) j then [] else ["C17|a SetDesiredCapacity of a scale-up does not raise the desired size the cloud holds (request not current + d)"]) ++
   ((Spec.loweringRequests c j).flatMap (fun (cur, v) =>
     let t := "a SetDesiredCapacity lowers the cloud group's desired size from " ++ toString cur ++ " to " ++ toString v ++ ": the cloud will terminate " ++ toString (cur - v) ++ " instance(s) of its own choosing"
@@ -231,7 +234,7 @@ def handleScan (ds : DState) (sc : ScanCase) : DState × Json :=
             let dupTainted : List String := (paired.filter (fun t => t.1 == ob.name)).filterMap (fun t => match t.2.1.call, t.2.2 with
               | .getNode _, .node nd => if t.2.1.ok && (nd.taints.filter (fun x => x.key == escKey)).length ≥ 2 then some nd.name else none
               | _, _ => none)
-            let mw := monitorsWant ctx ob.delta ob.j (fatalHere || gone) stillTainted dupTainted
+            let mw := monitorsWant ctx ob.delta ob.j (fatalHere || gone) stillTainted dupTainted (fatalHere && sc.obs.outcome == "fatal:fleet-strikes")
             let m11 := if !liveNextToDry then [] else
               (mw.filter (fun m => m.startsWith "C07|remainder-not-requested")).map (fun m => "C11|a live group configured next to a dry one acts as if it were dry: " ++ (m.drop 4).toString) ++
               (match sc.obs.states.find? (fun s => s.name == ob.name) with
@@ -309,7 +312,13 @@ def handleScan (ds : DState) (sc : ScanCase) : DState × Json :=
         if sc.obs.pre.any (fun e => !e.ok || (match e.call with | .build => true | _ => false)) then ["C20:fatal:rebuild-failed"]
         else ["C20:fatal:undocumented-stop:" ++ sc.obs.outcome ++ ":the provider was not rebuilt in this scan, yet RunOnce gave up on a cloud group",
               "C12:" ++ ((sc.obs.recs.getLast?.map (·.name)).getD "?") ++ ":groups-not-processed:" ++ sc.obs.outcome ++ " without a rebuild of the provider"]
-      else if sc.obs.outcome == "fatal:fleet-strikes" then ["C20:fatal:fleet-strikes"]
+      else if sc.obs.outcome == "fatal:fleet-strikes" then
+        -- the recorded finding T8 is the exit after the third consecutive failed fleet provisioning *of one group*; an exit
+        -- when no group has got that far (the model counts per group, as the pinned code does) is another matter
+        if outcomeStr out.outcome == "fatal:fleet-strikes" then ["C20:fatal:fleet-strikes"]
+        else ["C20:fatal:undocumented-stop:the process exits on failed fleet provisioning although no single group has failed three times in a row",
+              "C12:" ++ ((sc.obs.recs.getLast?.map (·.name)).getD "?") ++ ":the fleet failures of other groups were counted against this group: the process exits and the groups after it are not processed",
+              "C18:" ++ ((sc.obs.recs.getLast?.map (·.name)).getD "?") ++ ":process exit on a failed fleet provisioning that is not the third in a row for this group"]
       else if sc.obs.outcome.startsWith "fatal:unexpected" then ["C20:fatal:undocumented-stop:" ++ sc.obs.outcome]
       else []
     -- C12: a failure that is not one of the documented stop conditions must not keep later groups from being processed
